@@ -56,6 +56,9 @@ void ApiRun::exec(const Op &o) {
     g_stats.inc(std::string("op.") + opk_name(o.k));        // reach: how often each op kind was attempted (see also op.skipped.*)
     bool disk_faulted = o.fault_kind >= 1 && o.fault_kind <= 6;
     if (disk_faulted) arm_faults(o);
+    // a quarter of the read-only look-ups may be aimed at a CIF on which an iterator is open (any container but the one holding the
+    // iterated loop): defined behaviour, which must neither disturb the iteration nor report anything but the current content
+    beside_ok = !cfg.weights[O_PlantFail] && (o.seed % 4 == 1) && (o.k == O_BlockGet || o.k == O_BlocksAll || o.k == O_FrameGet || o.k == O_FramesAll || o.k == O_LoopByCat || o.k == O_LoopByItem);
     try {
         switch (o.k) {
             case O_CifCreate: op_cif_create(o); break; case O_CifDestroy: op_cif_destroy(o); break;
@@ -72,7 +75,8 @@ void ApiRun::exec(const Op &o) {
             case O_Checkpoint: op_checkpoint(o); break; case O_PlantFail: op_plant_fail(o); break; case O_PacketNew: op_packet_new(o); break; case O_ParseInto: op_parse_into(o); break;
             default: break;
         }
-    } catch (...) { if (disk_faulted) disarm_faults(); throw; }
+    } catch (...) { beside_ok = false; if (disk_faulted) disarm_faults(); throw; }
+    beside_ok = false;
     if (disk_faulted) {
         bool fired = g_disk.fired;
         disarm_faults();
@@ -137,7 +141,8 @@ void ApiRun::op_block_create(const Op &o) {
 void ApiRun::op_block_get(const Op &o) {
     int ci = pick_cif(o.a); if (ci < 0) SKIP("no CIF");
     RCif &c = cifs[(size_t) ci];
-    if (c.iter >= 0) SKIP("iterator open");
+    if (c.iter >= 0 && !beside_ok) SKIP("iterator open");
+    if (c.iter >= 0) g_stats.inc("api.query_beside_iterator");
     ustr code = code_str(o.code, o.simple); ustr norm = mnorm(code);
     bool want = (o.b % 5) != 0;
     cif_block_tp *h = NULL;
@@ -161,7 +166,8 @@ void ApiRun::op_block_get(const Op &o) {
 void ApiRun::op_blocks_all(const Op &o) {
     int ci = pick_cif(o.a); if (ci < 0) SKIP("no CIF");
     RCif &c = cifs[(size_t) ci];
-    if (c.iter >= 0) SKIP("iterator open");
+    if (c.iter >= 0 && !beside_ok) SKIP("iterator open");
+    if (c.iter >= 0) g_stats.inc("api.query_beside_iterator");
     cif_block_tp **bs = NULL;
     int rc = CALL("cif_get_all_blocks", (bs = NULL, cif_get_all_blocks(c.cif, &bs)));
     cover(o.k, rc, std::min<size_t>(c.model.blocks.size(), 3));
